@@ -7,7 +7,10 @@ use crate::error::CacheError;
 use rand::{rngs::StdRng, Rng, SeedableRng};
 use std::fmt::{Debug, Formatter};
 use std::ops::{Index, IndexMut};
+#[cfg(not(transparencies_stretto_verif))]
 use std::time::{SystemTime, UNIX_EPOCH};
+#[cfg(transparencies_stretto_verif)]
+use stretto_verif_rt::{SystemTime, UNIX_EPOCH};
 
 const DEPTH: usize = 4;
 
@@ -235,5 +238,19 @@ mod test {
         (0..16).for_each(|i| s.increment(i));
         s.clear();
         (0..16).for_each(|i| assert_eq!(s.estimate(i), 0));
+    }
+}
+
+#[cfg(transparencies_stretto_verif)]
+impl CountMinSketch {
+    /// (seeds, mask, row width in bytes, all 4-bit counters row by row)
+    pub(crate) fn verif_parts(&self) -> ([u64; DEPTH], u64, usize, Vec<Vec<u8>>) {
+        let width = self.rows[0].0.len();
+        let ctrs = self
+            .rows
+            .iter()
+            .map(|r| (0..(width as u64 * 2)).map(|i| r.get(i)).collect())
+            .collect();
+        (self.seeds, self.mask, width, ctrs)
     }
 }
